@@ -282,7 +282,7 @@ impl Check for C09Check {
     }
     fn cases(&self, tier: Tier) -> u64 {
         match tier {
-            Tier::Quick => 2_000,
+            Tier::Quick => 6_000,
             Tier::Thorough => 50_000,
         }
     }
@@ -301,8 +301,8 @@ impl Check for C09Check {
     }
     fn components(&self) -> (Vec<&'static str>, Vec<&'static str>) {
         (
-            vec!["compiler", "Runtime::restart", "retain_snapshot/apply_retain_snapshot", "RetainManager", "execute_cycle incl. I/O bindings, task FB bindings, access map", "Runtime::read_access/write_access"],
-            vec!["retain store (in-memory durable copy)", "clock", "process boundary of a power cycle (runtime dropped and rebuilt in-process)", "resource runner loop"],
+            vec!["compiler", "Runtime::restart", "scheduler::restart_resource_runtime (restart path of the resource loop, via H4c)", "retain_snapshot/apply_retain_snapshot", "RetainManager", "execute_cycle incl. I/O bindings, task FB bindings, access map", "Runtime::read_access/write_access"],
+            vec!["retain store (in-memory durable copy)", "clock", "process boundary of a power cycle (runtime dropped and rebuilt in-process)", "resource runner loop threads (its restart path itself is real: entered through hook H4c)"],
         )
     }
 
@@ -321,7 +321,8 @@ impl Check for C09Check {
         let mut ops = vec![];
         for _ in 0..n_ops {
             match o.below(20) {
-                0 | 1 => ops.push(json!({"k": "restart", "mode": "warm"})),
+                0 => ops.push(json!({"k": "restart", "mode": "warm"})),
+                1 => ops.push(json!({"k": "restart", "mode": "warm", "runner": o.bool()})),
                 2 | 3 => ops.push(json!({"k": "restart", "mode": "cold"})),
                 4 => ops.push(json!({"k": "save"})),
                 5 => ops.push(json!({"k": "power_cycle"})),
@@ -348,7 +349,7 @@ impl Check for C09Check {
     }
 
     fn run(&self, case: &Json, stats: &mut Stats) -> Result<(), Violation> {
-        for p in ["probe.warm_after_state_change", "probe.cold_after_state_change", "probe.power_cycle_with_saved_data", "probe.event_task_ran_after_restart", "probe.restart_with_single_true", "probe.access_write_after_restart", "probe.restart_while_faulted", "probe.periodic_save_observed"] {
+        for p in ["probe.warm_after_state_change", "probe.cold_after_state_change", "probe.power_cycle_with_saved_data", "probe.event_task_ran_after_restart", "probe.restart_with_single_true", "probe.access_write_after_restart", "probe.restart_while_faulted", "probe.periodic_save_observed", "probe.runner_style_warm_restart"] {
             stats.add(p, 0);
         }
         let src = source_for(case);
@@ -398,7 +399,14 @@ impl Check for C09Check {
                     if real.rt.faulted() {
                         stats.inc("probe.restart_while_faulted");
                     }
-                    let r = guard("restart", || real.rt.restart(mode))?;
+                    let runner = warm && op["runner"].as_bool().unwrap_or(false);
+                    // runner = the restart path of the resource loop (hook H4c), otherwise Runtime::restart itself
+                    let r = if runner {
+                        stats.inc("probe.runner_style_warm_restart");
+                        guard("restart_resource_runtime", || trust_runtime::scheduler::verif_restart_resource_runtime(&mut real.rt, mode))?
+                    } else {
+                        guard("restart", || real.rt.restart(mode))?
+                    };
                     if let Err(e) = r {
                         return Err(Violation::new(format!("restart-{}/error", op["mode"].as_str().unwrap_or("")), format!("op {opi}: {e:?}")));
                     }
@@ -414,7 +422,7 @@ impl Check for C09Check {
                         }
                     }
                     let _ = t.debug.drain_runtime_events();
-                    ctx = format!("restart-{}", if warm { "warm" } else { "cold" });
+                    ctx = format!("restart-{}{}", if warm { "warm" } else { "cold" }, if runner { "-runner" } else { "" });
                     now = 0;
                     stats.inc(&format!("fault.restart_{}", if warm { "warm" } else { "cold" }));
                     if changed_cycles > 0 {
